@@ -44,10 +44,14 @@ var awkward = []string{
 	" lead space", "trail space ", "multi\nline", "tab\there", "ctrl\x01\x02x", "esc\x1b[31mred", "nel\u0085x", "nbsp\u00a0x", "ls\u2028x", "bom\ufeffx",
 	"bad\xffutf8", "\xc3\x28", "", " ", "|", ">", "> folded", "| literal", "!!binary aGk=", "&anchor x", "*alias", "%directive", "@at", "`tick`",
 	"a: b: c", "- ", "---", "...", "\tstart tab", "cr\r\nlf", "é", "日本語 ファイル", "emoji 😀", "back\\slash", "quote\"inside", "it's", "2026-01-01", "12:30:45",
-	"=", "<<", "find . -name '*.go' -exec gofmt -w {} \\;", "awk '{print \"Lines:\" $1}'", strings.Repeat("long", 300), "y", "Off", ".inf", "-.5", "\"", "'", "\\",
+	"=", "<<", strings.Repeat("設", 20), strings.Repeat("ж", 30) + " tar", strings.Repeat("é", 26), "find . -name '*.go' -exec gofmt -w {} \\;", "awk '{print \"Lines:\" $1}'", strings.Repeat("long", 300), "y", "Off", ".inf", "-.5", "\"", "'", "\\",
 }
 
 func genText(rt *rapid.T, label string) string {
+	if rapid.IntRange(0, 79).Draw(rt, label+"-huge") == 40 {
+		// close to what one argv element can carry (128 KiB on Linux): buffered line readers give up at 64 KiB
+		return genWord(rt, label+"-w1") + " " + strings.Repeat("x", rapid.SampledFrom([]int{65535, 65536, 70000, 120000}).Draw(rt, label+"-hugelen"))
+	}
 	switch rapid.IntRange(0, 5).Draw(rt, label+"-shape") {
 	case 0:
 		return rapid.SampledFrom(awkward).Draw(rt, label+"-awk")
